@@ -367,6 +367,32 @@ func cmdCheck(args []string) int {
 			oc.violations = append(oc.violations, "undecided+failing-input")
 		}
 	}
+	// Beside the proof: the property's witness family is run against the real code even when every obligation was
+	// discharged (a bounded exploration, labelled as such in the evidence, never counted as proved). It is the net under
+	// gaps in the contracts themselves - a clause of the property that no postcondition states, an assumption that a
+	// change makes false - which no obligation can reveal. Families that only compute (policy, listing, text, table,
+	// configuration) run in both tiers; those that start processes and talk to the kernel only in the thorough tier.
+	familyRan, familyNote := false, ""
+	if len(oc.violations) == 0 {
+		hn := propHarness[prop]
+		det := map[string]bool{"policy": true, "disasm": true, "text": true, "arch": true, "sandbox": true}
+		if hn != "" && (det[hn] || *tier == "thorough") {
+			familyRan = true
+			if *tier == "quick" && len(oc.undecided) == 0 {
+				familyMode = "beside"
+			}
+			if found, wit := e.findFailingInput(prop, "family", nil, *tier, seed); found {
+				rp := filepath.Join(replayDir, fmt.Sprintf("%s_family.json", prop))
+				o := &Obligation{ID: "witness-family", GoalText: "every obligation generated on this tree was discharged or undecided; the witness family of the property found a failing input on the real code", Status: "failed"}
+				writeReplay(rp, prop, "witness family: failing input on the real code although no obligation failed (a gap in the contracts)", []*Obligation{o}, true, wit)
+				fmt.Printf("VIOLATION property=%s replay=%s\n", prop, rp)
+				oc.violations = append(oc.violations, "family+failing-input")
+				familyNote = "failing input found"
+			} else {
+				familyNote = "no disagreement"
+			}
+		}
+	}
 	for _, u := range oc.undecided {
 		fmt.Printf("UNDECIDED property=%s reason=%s\n", prop, u)
 	}
@@ -402,6 +428,7 @@ func cmdCheck(args []string) int {
 			"solver_timeout_s":         timeout,
 			"proof_hints":              map[string]int{"tried": hintsTried, "not_proved_hence_not_assumed": hintsFailed},
 			"notes":                    append(e.Notes, gnotes...),
+			"witness_family":           map[string]interface{}{"harness": propHarness[prop], "second_harness": propHarness2[prop], "ran_beside_the_proof": familyRan, "outcome": familyNote, "what": "bounded exploration of the real code (in-package test injected by a build overlay: enumerated and seeded random inputs, histories, scenarios; see /verif/replay); not part of the proof and not counted in obligations/discharged"},
 			"explanation":              "obligations generated by govc from the typed AST of /repo on this run (contracts: //@ files under build tag verif), discharged by the SMT portfolio; 'discharged' counts obligations proved unsat-of-negation; obligations that fail only at a recorded known finding are counted under known_finding_obligations",
 		},
 		"assumptions":    assumptions,
